@@ -34,6 +34,7 @@ def run_one(spec, props=None, keep=False):
             if props and prop not in props:
                 continue
             env = dict(os.environ, VERIF_REPO=d, VERIF_SELFTEST='1')
+            env.setdefault('VERIF_TASK_BUDGET', '300')
             t = time.time()
             p = subprocess.run([os.path.join(HERE, 'check'), prop, '--tier', 'quick', '--no-evidence'], env=env, cwd=HERE,
                                stdout=subprocess.PIPE, stderr=subprocess.STDOUT, text=True)
